@@ -241,69 +241,130 @@ CF_INNER_Q = [Y, ER, SG(5), RES(2), CAN(2), PROP(2), EACH2, T(Y), ("defer", [Y])
 
 # ------------------------------------------------------------------ registry per tier
 
-def define(tier):
+def define(tier=None):
+    """bound 1 (quick, and first half of thorough) and bound 2 (names ending in +, thorough only)"""
     SPACES.clear()
-    q = tier == "quick"
-    space("single", [sorted(ROOT_SCRIPTS_1), MASKS_ALL, seqs(SIMPLE_M if q else SIMPLE_T, 2 if q else 3)], b_single,
-          doc="one fiber: every mask x every body of <=2/3 signal statements x 10 root scripts "
-              "(resume x5, cancel at each point, bare (root itself in the path), propagate, each/loop/generate, protect)")
+    # ---- single
+    scripts1 = sorted(ROOT_SCRIPTS_1)
+    space("single", [scripts1, MASKS_ALL, seqs(SIMPLE_M, 2)], b_single,
+          doc="one fiber: every mask x every body of <=2 signal statements x 10 root scripts (resume x5, cancel at "
+              "each point, bare = root itself in the signal path, propagate, each/loop/generate, protect)")
+    space("single+", [scripts1, MASKS_ALL, seqs(SIMPLE_T, 3, 1)], b_single,
+          doc="bodies of <=3 statements over yield/error/signal 0,1,4,5,7,8,9,:debug")
     space("fnsig", [["x", "opt", "var", ""], [None, "y", "", "a"], seqs(SIMPLE_Q, 1), ["r5", "c0", "each"]], b_fnsig,
           doc="fiber function signatures [x] [&opt x] [& x] []: where the first resume value goes")
-    a1 = [RES(2), CAN(2), PROP(2), EACH2, Y, ER, SG(5), ST(2)]
-    if not q:
-        a1 = a1 + [SG(0), SG(9)]
-    space("nest2", [sorted(ROOT_SCRIPTS_2), MASKS_Q if q else MASKS_DESIGN, MASKS_Q if q else MASKS_DESIGN,
-                    seqs(a1, 2), seqs(SIMPLE_Q if q else SIMPLE_M, 2)], b_nest2,
-          doc="two levels: routing of every signal by the masks of both levels, resume/cancel/propagate/each of the child")
+    # ---- nest2
+    a1 = [RES(2), CAN(2), PROP(2), EACH2, Y, ER, SG(5)]
+    mq = ["", "y", "e", "a", "5"]
+    space("nest2", [["r4", "rcr"], mq, mq, seqs(a1, 2), seqs(SIMPLE_Q, 2)], b_nest2,
+          doc="two levels: routing of every signal by the masks of both levels; resume/cancel/propagate/each of the child")
+    space("nest2+", [sorted(ROOT_SCRIPTS_2), MASKS_DESIGN, MASKS_DESIGN, seqs(a1 + [ST(2), SG(0)], 2), seqs(SIMPLE_M, 2)], b_nest2,
+          doc="all 10 design masks on both levels, 3 root scripts, more statements")
+    space("nest2-deep+", [["r4"], MASKS_Q, MASKS_Q, seqs(a1, 3, 3), seqs(SIMPLE_Q, 2)], b_nest2,
+          doc="parent bodies of exactly 3 statements")
+    # ---- reenter
     acts = [RES(1), RES(2), CAN(1), CAN(2)]
-    space("reenter", [seqs(acts, 3 if q else 4, 1), ["", "y", "a"] if q else MASKS_S, ["", "y", "e"] if q else MASKS_S,
-                      REENTER_B1, seqs([Y, SG(5), ER, RES(1), CAN(1)], 2)], b_reenter,
-          doc="the root resumes/cancels both the parent and (directly) the child that is still suspended under it")
-    m3 = ["", "y", "e"] if q else MASKS_Q
-    space("nest3", [m3, m3, m3, seqs([RES(2), CAN(2), Y], 2), seqs([RES(3), CAN(3), PROP(3), Y, ("each", 3)], 2),
-                    seqs(SIMPLE_Q, 2)], b_nest3,
+    b1q = [[RES(2)], [RES(2), Y], [T(RES(2))], [("defer", [RES(2)])], [EACH2], [RES(2), PROP(2)]]
+    space("reenter", [seqs(acts, 3, 1), ["", "y"], ["", "y", "e"], b1q, seqs([Y, SG(5), RES(1), CAN(1)], 2)], b_reenter,
+          doc="the root resumes/cancels both the parent and (directly) the child that is still suspended under it; "
+              "the child may resume/cancel its parent")
+    space("reenter+", [seqs(acts, 4, 1), ["", "y", "a"], MASKS_S, REENTER_B1, seqs([Y, SG(5), ER, RES(1), CAN(1)], 2)], b_reenter,
+          doc="root scripts of <=4 actions, 3x4 masks")
+    # ---- nest3 / siblings
+    m3 = ["", "y", "e"]
+    b2 = seqs([RES(3), CAN(3), PROP(3), Y, ("each", 3)], 2)
+    space("nest3", [m3, m3, m3, seqs([RES(2), CAN(2), Y], 2), b2, seqs(SIMPLE_Q, 1)], b_nest3,
           doc="three levels: signals and cancellation through two intermediate fibers")
-    space("siblings", [["r4", "rcr"], ["y", "a"], m3, m3, seqs([RES(2), RES(3), CAN(2), CAN(3)], 2 if q else 3),
-                       seqs([Y, ER, SG(5), RES(3), RES(1)], 2), seqs([Y, ER, SG(5), RES(2)], 1)], b_sib,
+    space("nest3+", [MASKS_S, MASKS_S, MASKS_S, seqs([RES(2), CAN(2), Y], 2), b2, seqs(SIMPLE_Q, 2)], b_nest3,
+          doc="4x4x4 masks, leaf bodies <=2")
+    space("siblings", [["r4", "rcr"], ["y", "a"], m3, m3, seqs([RES(2), RES(3), CAN(2), CAN(3)], 2),
+                       seqs([Y, ER, SG(5), RES(3), RES(1)], 1), seqs([Y, ER, SG(5), RES(2)], 1)], b_sib,
           doc="one parent, two children that may resume each other or their parent")
-    inner1 = seqs([Y, ER, SG(0), SG(4), SG(5), SG(9), RET], 2 if q else 3)
-    space("cleanup1", [sorted(ROOT_SCRIPTS_C), ["", "y", "e", "t", "a", "5"], KINDS, inner1, [[], [Y]]], b_cleanup1,
-          doc="each cleanup form around every body of signal statements; root resumes / cancels at every point")
-    space("cleanup2", [sorted(ROOT_SCRIPTS_C), ["", "y", "a"], KINDS, KINDS, seqs([Y, ER, SG(0), SG(5), RET], 2), [[], [Y], [ER]]],
+    space("siblings+", [["r4", "rcr"], ["y", "a"], MASKS_S, MASKS_S, seqs([RES(2), RES(3), CAN(2), CAN(3)], 3),
+                        seqs([Y, ER, SG(5), RES(3), RES(1)], 2), seqs([Y, ER, SG(5), RES(2)], 1)], b_sib,
+          doc="parent bodies <=3, first child <=2, 4x4 masks")
+    # ---- cleanup
+    scc = sorted(ROOT_SCRIPTS_C)
+    space("cleanup1", [scc, ["", "y", "e", "t", "a", "5"], KINDS, seqs([Y, ER, SG(0), SG(4), SG(5), SG(9), RET], 2), [[], [Y]]],
+          b_cleanup1, doc="each cleanup form (defer edefer with try protect prompt with-dyns) around every body of <=2 "
+                          "signal statements; root resumes / cancels at every point")
+    space("cleanup1+", [scc, ["", "y", "e", "t", "a", "5"], KINDS, seqs([Y, ER, SG(0), SG(4), SG(5), SG(9), RET], 3, 3), [[], [Y]]],
+          b_cleanup1, doc="bodies of exactly 3 statements")
+    space("cleanup2", [["r4", "c1", "c2"], ["", "y"], KINDS, KINDS, seqs([Y, ER, SG(0), SG(5), RET], 2), [[], [Y], [ER]]],
           b_cleanup2, doc="cleanup forms nested in each other")
-    space("cleanup3", [sorted(ROOT_SCRIPTS_C3), ["", "y", "a"], ["", "y", "e"], KINDS, seqs([RES(2), Y, ER, CAN(2)], 2), CLEAN3_B2],
+    space("cleanup2+", [["c0", "bare"], ["", "y", "a"], KINDS, KINDS, seqs([Y, ER, SG(0), SG(5), RET], 2), [[], [Y], [ER]]],
+          b_cleanup2, doc="remaining root scripts, mask :a")
+    space("cleanup3", [sorted(ROOT_SCRIPTS_C3), ["", "y"], ["", "y"], KINDS, seqs([RES(2), Y, ER, CAN(2)], 2), CLEAN3_B2],
           b_cleanup3, doc="a child fiber resumed / cancelled inside a cleanup form, re-entered or cancelled directly by the root")
-    dm = ["y", "yi", "yp"] if q else ["y", "yi", "yp", "", "i", "p", None]
-    space("dyn", [[[], [SET]], dm, dm, seqs([SET, GET], 1), DYN_CREATE, seqs([SET, GET, Y], 2),
-                  seqs([SET, GET, Y, WD(GET), WD(SET), T(SET), SET2] + ([] if q else [GET2, ("defer", [SET])]), 2)], b_dyn,
+    space("cleanup3+", [sorted(ROOT_SCRIPTS_C3), ["", "y", "a"], ["", "y", "e"], KINDS, seqs([RES(2), Y, ER, CAN(2), EACH2], 2), CLEAN3_B2],
+          b_cleanup3, doc="3x3 masks, each over the child inside the form")
+    # ---- dyn
+    dq = ["y", "yi", "yp"]
+    space("dyn", [[[], [SET]], dq, dq, seqs([SET, GET], 1), DYN_CREATE, seqs([SET, GET, Y], 1),
+                  seqs([SET, GET, WD(GET), T(SET)], 2)], b_dyn,
           doc="setdyn/dyn/with-dyns in three levels with every combination of no-env / :i / :p flags and creation points")
-    space("generator", [GEN_SCRIPTS, MASKS_S, MASKS_DESIGN if q else MASKS_ALL, GEN_CONSUME,
-                        seqs([Y, ER, SG(0), SG(5), SG(9), T(Y), ("defer", [Y])], 2 if q else 3), [[], [Y]]], b_gen,
-          doc="each / loop :in / generate consuming a fiber whose body yields, errors, signals")
-    space("cframe", [["", "y", "e", "a"], ["", "y", "e"], ["replace", "binop", "map"] if q else ["replace", "binop", "peg", "map"],
-                     [[], [RES(2)]], seqs(CF_INNER_Q if q else CF_INNER, 2), [[], [Y]], [[], [Y], [ER], [SG(5)], [Y, Y]]], b_cframe,
-          doc="statements executed inside a callback invoked from C (string/replace, operator method, peg cmt) -- "
-              "every signal leaving the callback is coerced to an error -- and inside a plain Janet higher-order function (map)")
+    space("dyn+", [[[], [SET]], dq + ["", "i", "p", None], dq + ["", "i", "p", None], seqs([SET, GET], 1), DYN_CREATE,
+                   seqs([SET, GET, Y], 1), seqs([SET, GET, Y, WD(GET), WD(SET), T(SET), SET2, GET2, ("defer", [SET])], 2)], b_dyn,
+          doc="7x7 flag combinations, second key, more statements")
+    # ---- generators
+    gb = [Y, ER, SG(0), SG(5), SG(9), T(Y), ("defer", [Y])]
+    space("generator", [GEN_SCRIPTS, ["", "y", "a"], MASKS_DESIGN, GEN_CONSUME, seqs(gb, 2), [[]]], b_gen,
+          doc="each / loop :in / generate consuming a fiber whose body yields, errors, signals; all design masks on the generator")
+    space("generator+", [GEN_SCRIPTS, MASKS_S, MASKS_ALL, GEN_CONSUME, seqs(gb, 3, 3), [[]]], b_gen,
+          doc="generator bodies of exactly 3 statements, all 22 masks")
+    # ---- C frames
+    space("cframe", [["", "y", "e"], ["", "y"], ["replace", "binop", "map"], [[], [RES(2)]], seqs(CF_INNER_Q, 2), [[], [Y]],
+                     [[], [Y], [ER], [SG(5)]]], b_cframe,
+          doc="statements executed inside a callback invoked from C (string/replace, operator method) -- every signal "
+              "leaving the callback is coerced to an error -- and inside a plain Janet higher-order function (map)")
+    space("cframe+", [["", "y", "e", "a"], ["", "y", "e"], ["replace", "binop", "peg", "map"], [[], [RES(2)]], seqs(CF_INNER, 2),
+                      [[], [Y]], [[], [Y], [ER], [SG(5)], [Y, Y]]], b_cframe,
+          doc="peg cmt callbacks as well, 13 inner statements")
 
 
 def plan(tier):
-    define(tier)
-    return list(SPACES)
+    define()
+    names = list(SPACES)
+    first = [n for n in names if not n.endswith("+")]
+    if tier == "quick":
+        return first
+    return first + [n for n in names if n.endswith("+")]
 
 
-def bound_text(tier):
-    return "; ".join("%s: %d" % (n, s.size) for n, s in SPACES.items())
+def bound_text(tier, done):
+    return "; ".join("%s: %d programs" % (n, SPACES[n].size) for n in done)
 
 
-def finding_programs():
-    """(name, nodes, text): minimal programs for behaviour excluded from the parts"""
+def pinned_programs():
+    """(name, nodes, text): minimal programs for the defects this check found"""
     return [
         ("cancel-cyclic-child-chain",
-         [node("a", [NEW(1), T(RES(1)), T(RES(2)), ST(1), ST(2)]),
+         [node("a", [NEW(1), T(RES(1)), T(RES(2)), ST(1), ST(2), T(RES(1))]),
           node("y", [NEW(2), RES(2)]),
           node("", [Y, CAN(1)])],
-         "f1 resumes f2, f2's yield passes through f1 (f1 pending, child f2); f2 is resumed directly and cancels f1: "
-         "janet_continue_signal walks f1->f2->f1->... for ever"),
+         "f1 resumes f2, f2's yield passes through f1 (f1 pending, child f2); f2 is resumed directly and cancels f1 "
+         "(before c70d813: janet_continue_signal walked f1->f2->f1->... for ever)"),
+        ("cancel-cyclic-child-chain-3",
+         [node("a", [NEW(1), T(RES(1)), T(RES(2)), ST(1), ST(2), ST(3)]),
+          node("y", [NEW(2), RES(2)]),
+          node("", [NEW(3), Y, RES(3)]),
+          node("", [CAN(1)])],
+         "as above, the canceller is a fresh child of the re-entered fiber"),
+        ("propagate-dead-in-c-callback",
+         [node("a", [NEW(1), T(RES(1)), ("cfun", "replace", [PROP(1)]), ST(1)]),
+          node("y", [])],
+         "(propagate x f) with f dead inside a string/replace callback (before 868d7cc: returned from the callback "
+         "frame without unwinding it; the code after the C call ran twice or the process died)"),
+        ("propagate-dead-in-c-callback-2",
+         [node("a", [NEW(1), T(RES(1)), T(RES(2)), ST(1)]),
+          node("y", []),
+          node("a", [("cfun", "binop", [PROP(1)]), Y])],
+         "the same inside an operator-method callback of a nested fiber"),
+        ("propagate-dead",
+         [node("a", [NEW(1), T(RES(1)), T(RES(2)), ST(2)]),
+          node("y", []),
+          node("y", [PROP(1), Y])],
+         "(propagate x f) with f dead outside any callback"),
         ("reentrant-resume-of-chain-ancestor-a",
          [node("a", [NEW(1), T(RES(1)), T(RES(1)), ST(1), ST(2)]),
           node("y", [NEW(2), RES(2)]),
@@ -316,9 +377,4 @@ def finding_programs():
           node("ye", [NEW(2), RES(2), ER, ST(2)]),
           node("e", [Y, RES(1)])],
          "as above, but f1 ends with an error inside the re-entrant resume (status :error, observed by f2); the outer "
-         "continuation then runs f1 past its error: a finished fiber runs again and ends :dead"),
-        ("propagate-dead-in-c-callback",
-         [node("a", [NEW(1), T(RES(1)), ("cfun", "replace", [PROP(1)]), ST(1)]),
-          node("y", [])],
-         "(propagate x f) with f dead inside a string/replace callback returns from the callback frame without "
-         "unwinding it: the code after the C call runs twice")]
+         "continuation then runs f1 past its error: a finished fiber runs again and ends :dead")]
